@@ -196,5 +196,8 @@ func LoadProgram(repo string, patterns ...string) (*Program, error) {
 			}
 		}
 	}
+	if err := p.Contracts.LinkImplements(); err != nil {
+		return nil, err
+	}
 	return p, nil
 }
